@@ -21,6 +21,12 @@ var c01Cases = []vCase{
 	{name: "list-member-check", prog: "m(X, [X|_]). m(X, [_|T]) :- m(X, T).", query: "m(k3, [k0, k1, k2])."},
 	{name: "append-split", prog: "app([], L, L). app([H|T], L, [H|R]) :- app(T, L, R).", query: "app(X, Y, [k0, k1])."},
 	{name: "append-join", prog: "app([], L, L). app([H|T], L, [H|R]) :- app(T, L, R).", query: "app([k0], [k1, k2], Z)."},
+	{name: "head-two-prefix-recursion", prog: "pairs([]). pairs([_, _|T]) :- pairs(T).", query: "pairs([k0, k1, k2, k3])."},
+	{name: "head-two-prefix-collect", prog: "ev([], []). ev([_, X|T], [X|R]) :- ev(T, R).", query: "ev([k0, k1, k2, k3], L)."},
+	{name: "head-two-prefix-rest", prog: "rest([_, _|T], T). nil([]).", query: "rest([k0, k1], T), nil(T)."},
+	{name: "head-three-prefix-exact", prog: "t3([A, B, C|T], A, B, C, T).", query: "t3([k0, k1, k2], X, Y, Z, T), T = []."},
+	{name: "head-prefix-vs-longer-shorter", prog: "h2([A, B|T], A-B-T).", query: "( L = [k0] ; L = [k0, k1] ; L = [k0, k1, k2] ; L = [k0, k1|_] ; L = \"ab\" ), h2(L, R)."},
+	{name: "head-string-literal", prog: "kw(\"ab\", yes). kw([k0|_], maybe).", query: "( L = [a, b] ; L = [a|T] ; L = \"ab\" ; L = [k1, b] ), kw(L, R)."},
 	{name: "partial-list-arg", prog: "p([k0|T], T). p([k1, k2|T], T).", query: "p([A|B], [k3])."},
 	{name: "mutual-recursion", prog: "ev(z). ev(s(X)) :- od(X). od(s(X)) :- ev(X).", query: "ev(s(s(z))), od(s(z))."},
 	{name: "nat-gen", prog: "n(z). n(s(X)) :- n(X).", query: "n(X).", max: 4},
